@@ -1,6 +1,4 @@
-//go:debug randseednop=0
-
-package provsim
+package gwsim
 
 import (
 	"testing"
@@ -8,6 +6,6 @@ import (
 	"verifsim/core"
 )
 
-// TestSim is the entry point of the provsim binary (a test binary, because testing/synctest needs a
+// TestSim is the entry point of the gwsim binary (a test binary, because testing/synctest needs a
 // *testing.T); core.Main parses the harness flags, runs workers and exits the process.
 func TestSim(t *testing.T) { core.Main(Engine{T: t}) }
